@@ -23,6 +23,17 @@ theorem buffered_scan_is_reference (S : List (Sample V)) (hs : SortedT S) (range
     selectRangesB range (Buf.new S) [] ends = ends.map (fun r => windowPoints (r - range) r S) :=
   selectRanges_along_steps S hs range hr ends hm
 
+/-- **the matrix selector's scan as `matrixSelector.Next` drives it**: after every step the operator
+shrinks the iterator's buffer to `min(range, step)` milliseconds (`ReduceDelta`) and relies on the
+points it retained in `previousPoints` for the older part of the next window. Modelled as written
+(`selectRangesM`): for every sorted sample list, every range `≥ 0`, every step `> 0`, every start
+and step count, each step's points are exactly the window's non-stale samples. -/
+theorem matrix_scan_is_reference (S : List (Sample V)) (hs : SortedT S) (range step : Int) (hr : 0 ≤ range)
+    (hst : 0 < step) (r0 : Int) (n : Nat) :
+    selectRangesM range step range (Buf.new S) [] ((List.range n).map fun (k : Nat) => r0 + (k : Int) * step) =
+      (List.range n).map fun (k : Nat) => windowPoints (r0 + (k : Int) * step - range) (r0 + (k : Int) * step) S :=
+  matrix_scan_along_steps S hs range step hr hst r0 n
+
 /-- the hypotheses are met by a series with a staleness marker and overlapping windows -/
 example : SortedT ([⟨1, .num 1⟩, ⟨5, .stale⟩, ⟨9, .num 3⟩] : List (Sample Int)) ∧
     ([4, 9, 10] : List Int).Pairwise (· < ·) := by
